@@ -1,5 +1,10 @@
-(* C12 — lemmas. *)
+(* C12 — the lemmas behind Properties.v.
+   ProofsCur.v   current/previous-job rules on an abstract table
+   ProofsBase.v  characterisation of the list functions, split of Inv
+   ProofsOps.v   every operation preserves Inv
+   this file     histories, panic freedom, job numbers, the oracle *)
 From Yv Require Import Common.Base C12.Model C12.Spec.
+From Yv Require Import C12.ProofsCur C12.ProofsBase C12.ProofsOps.
 
 Lemma get_empty i : get empty i = None.
 Proof. unfold get, empty; cbn. destruct i; reflexivity. Qed.
@@ -16,3 +21,484 @@ Proof.
   - intros i [j [H _]]; rewrite get_empty in H; discriminate.
   - intros i1 i2 _ [j [H _]]; rewrite get_empty in H; discriminate.
 Qed.
+
+(* ---- 1, 2: the invariant along histories ---------------------------------- *)
+
+Lemma op_ok_reuse s pid st :
+  op_ok s (OInsert pid st) = true -> reuse_ok s (new_job pid st).
+Proof.
+  unfold reuse_ok. cbn. intros H i j0 F G. rewrite F, G in H.
+  apply negb_true_iff in H. apply not_alive_not_stopped. exact H.
+Qed.
+
+Lemma inv_step_l s o : Inv s -> op_ok s o = true -> Inv (step s o).
+Proof.
+  intros I H. destruct o; cbn [step].
+  - apply insert_inv; auto. apply op_ok_reuse; auto.
+  - apply remove_inv; auto.
+  - apply remove_if_inv; auto.
+  - apply remove_if_inv; auto.
+  - apply update_inv; auto.
+  - apply set_current_inv; auto.
+  - apply disown_inv; auto.
+  - apply expect_inv; auto.
+  - apply reported_inv; auto.
+Qed.
+
+Lemma inv_fold ops : forall s, Inv s -> ops_ok s ops = true -> Inv (fold_left step ops s).
+Proof.
+  induction ops as [|o ops IH]; intros s I H; cbn in *; auto.
+  apply andb_true_iff in H. destruct H as [H1 H2].
+  apply IH; auto. apply inv_step_l; auto.
+Qed.
+
+Lemma inv_reachable_l ops : ops_ok empty ops = true -> Inv (run ops).
+Proof. intros H. unfold run. apply inv_fold; auto. apply inv_empty. Qed.
+
+(* ---- 3: the panic sites are never reached --------------------------------- *)
+
+Lemma find_contains s p i : Inv s -> find_by_pid s p = Some i -> contains s i = true.
+Proof.
+  intros I F. destruct (inv_job_of_pid s I _ _ F) as [j [G _]].
+  unfold contains. rewrite G. reflexivity.
+Qed.
+
+Lemma step_no_panic_l s o : Inv s -> op_ok s o = true -> step_panics s o = false.
+Proof.
+  intros I H. destruct o; cbn [step_panics]; auto.
+  - pose proof (op_ok_reuse _ _ _ H) as R.
+    set (j := new_job pid st) in *. unfold insert_panics. apply orb_false_iff. split.
+    + destruct (find_by_pid s (jpid j)) as [i|] eqn:F; auto.
+      rewrite (find_contains _ _ _ I F). reflexivity.
+    + destruct (opt_susp s (current_job s)) as [[|]|]; auto.
+      destruct (suspended j) eqn:Sj; auto. cbn [andb].
+      destruct (insert_place s j) as [s1 k] eqn:E. cbn [fst snd].
+      destruct (insert_place_spec _ _ _ _ I R E) as (_ & _ & G1 & _).
+      unfold set_current_job. rewrite get_getL, G1, Nat.eqb_refl, Sj. cbn [negb andb].
+      destruct (Nat.eqb k (cur s1)); reflexivity.
+  - unfold update_panics. destruct (find_by_pid s pid) as [i|] eqn:F; auto.
+    rewrite (find_contains _ _ _ I F). reflexivity.
+Qed.
+
+(* ---- 4, 5: job numbers ------------------------------------------------------ *)
+
+Lemma pidx_set_current s i : pidx (fst (set_current_job s i)) = pidx s.
+Proof.
+  unfold set_current_job. destruct (get s i); auto.
+  destruct (negb (suspended j) && _); auto.
+  destruct (Nat.eqb i (cur s)); auto.
+Qed.
+
+Lemma pidx_insert s j : pidx (fst (insert s j)) = pidx (fst (insert_place s j)).
+Proof.
+  unfold insert. destruct (insert_place s j) as [s1 k]. cbn [fst].
+  destruct (opt_susp s (current_job s)) as [[|]|].
+  - destruct (opt_susp s (previous_job s)) as [[|]|]; try destruct (suspended j); reflexivity.
+  - destruct (suspended j); [apply pidx_set_current|].
+    destruct (opt_susp s (previous_job s)); reflexivity.
+  - reflexivity.
+Qed.
+
+Lemma find_insert_place s j p i' :
+  find_by_pid (fst (insert_place s j)) p = Some i' ->
+  find_by_pid s p = Some i' \/ find_by_pid s p = None.
+Proof.
+  unfold insert_place. destruct (find_by_pid s (jpid j)) as [i|] eqn:F.
+  - cbn. auto.
+  - destruct (slab_insert (slots s) (free s) j) as [[sl fr] idx]. unfold find_by_pid. cbn.
+    destruct (Z.eqb_spec (jpid j) p) as [E|E]; auto. subst. right. exact F.
+Qed.
+
+Lemma find_remove s k p i' :
+  find_by_pid (fst (remove s k)) p = Some i' -> find_by_pid s p = Some i'.
+Proof.
+  unfold remove. destruct (get s k) as [j|]; auto.
+  destruct (all_vacant (set_slot (slots s) k None)); unfold find_by_pid; cbn;
+    rewrite assoc_remove_assoc; destruct (Z.eqb (jpid j) p); congruence.
+Qed.
+
+Lemma find_extract_loop f fuel p i' : forall s next rem,
+  find_by_pid (extract_loop f s next rem fuel) p = Some i' -> find_by_pid s p = Some i'.
+Proof.
+  induction fuel as [|fuel IH]; intros s next rem H; cbn [extract_loop] in H; auto.
+  destruct rem as [|r]; auto.
+  destruct (get s next) as [j|]; [|eauto].
+  destruct (f next j); [|eauto].
+  apply IH in H. apply find_remove in H. exact H.
+Qed.
+
+Lemma pidx_update s pid st : pidx (fst (update_status s pid st)) = pidx s.
+Proof.
+  unfold update_status. destruct (find_by_pid s pid) as [k|]; auto.
+  destruct (get s k) as [j|]; auto.
+  destruct (negb (suspended j) && is_stopped st).
+  - cbn [fst]. destruct (Nat.eqb k _); reflexivity.
+  - destruct (suspended j && negb (is_stopped st)); [|reflexivity].
+    destruct (previous_job _) as [pi|]; [|reflexivity].
+    cbn [fst]. destruct (_ && _); destruct (_ || _); reflexivity.
+Qed.
+
+Lemma pidx_expect s i st : pidx (expect s i st) = pidx s.
+Proof. unfold expect. destruct (get s i); reflexivity. Qed.
+
+Lemma pidx_reported s i : pidx (state_reported s i) = pidx s.
+Proof. unfold state_reported. destruct (get s i); reflexivity. Qed.
+
+Lemma find_step s o p i i' :
+  find_by_pid s p = Some i -> find_by_pid (step s o) p = Some i' -> i' = i.
+Proof.
+  intros F H. destruct o; cbn [step] in H.
+  - unfold find_by_pid in H. rewrite pidx_insert in H.
+    apply find_insert_place in H. destruct H; congruence.
+  - apply find_remove in H. congruence.
+  - apply find_extract_loop in H. congruence.
+  - apply find_extract_loop in H. congruence.
+  - unfold find_by_pid in H. rewrite pidx_update in H. unfold find_by_pid in F. congruence.
+  - unfold find_by_pid in H. rewrite pidx_set_current in H. unfold find_by_pid in F. congruence.
+  - unfold find_by_pid in *. cbn in H. congruence.
+  - unfold find_by_pid in *. rewrite pidx_expect in H. congruence.
+  - unfold find_by_pid in *. rewrite pidx_reported in H. congruence.
+Qed.
+
+Lemma job_number_stable_l s o i j i' :
+  Inv s -> op_ok s o = true -> get s i = Some j ->
+  find_by_pid (step s o) (jpid j) = Some i' -> i' = i.
+Proof.
+  intros I _ G H. eapply find_step; eauto. apply (inv_pid_of_job s I). exact G.
+Qed.
+
+Lemma pid_designates_one_job_l s i1 i2 j1 j2 :
+  Inv s -> get s i1 = Some j1 -> get s i2 = Some j2 -> jpid j1 = jpid j2 -> i1 = i2.
+Proof.
+  intros I G1 G2 E.
+  pose proof (inv_pid_of_job s I _ _ G1) as F1.
+  pose proof (inv_pid_of_job s I _ _ G2) as F2.
+  rewrite E in F1. congruence.
+Qed.
+
+(* ---- 7: current and previous job ------------------------------------------- *)
+
+Lemma cur_exists s i j :
+  Inv s -> get s i = Some j ->
+  current_job s = Some (cur s) /\ exists jc, get s (cur s) = Some jc.
+Proof.
+  intros I G. pose proof (inv_current s I _ _ G) as C.
+  unfold current_job. rewrite C. split; auto.
+  unfold contains in C. destruct (get s (cur s)) as [jc|]; [eauto|discriminate].
+Qed.
+
+Lemma prev_exists s i1 i2 j1 j2 :
+  Inv s -> i1 <> i2 -> get s i1 = Some j1 -> get s i2 = Some j2 ->
+  previous_job s = Some (prev s) /\ prev s <> cur s /\ exists jp, get s (prev s) = Some jp.
+Proof.
+  intros I N G1 G2. destruct (inv_previous s I _ _ _ _ N G1 G2) as [A B].
+  unfold previous_job. rewrite B. apply Nat.eqb_neq in A. rewrite A. cbn. split; auto.
+  apply Nat.eqb_neq in A. split; auto.
+  unfold contains in B. destruct (get s (prev s)) as [jp|]; [eauto|discriminate].
+Qed.
+
+Lemma two_of_list {A} (L : list (nat * A)) :
+  NoDup (map fst L) -> 2 <= length L ->
+  exists x y, In x L /\ In y L /\ fst x <> fst y.
+Proof.
+  destruct L as [|x [|y L]]; cbn; try lia. intros ND _.
+  exists x, y. split; [auto|]. split; [auto|].
+  inversion ND as [|? ? Hn _]; subst. intros E. apply Hn. left. auto.
+Qed.
+
+Lemma one_of_list {A} (L : list A) : length L <> 0 -> exists x, In x L.
+Proof. destruct L as [|x L]; cbn; [congruence|]. intros _. exists x. auto. Qed.
+
+Lemma len_one s : 1 <= len s -> exists i j, get s i = Some j.
+Proof.
+  unfold len. intros H. destruct (one_of_list (iter s)) as [[i j] Hin]; [lia|].
+  apply in_iter in Hin. eauto.
+Qed.
+
+Lemma len_two s : 2 <= len s ->
+  exists i1 i2 j1 j2, i1 <> i2 /\ get s i1 = Some j1 /\ get s i2 = Some j2.
+Proof.
+  unfold len. intros H.
+  destruct (two_of_list (iter s) (nodup_iter s) H) as [[i1 j1] [[i2 j2] (H1 & H2 & N)]].
+  apply in_iter in H1. apply in_iter in H2. cbn in N. exists i1, i2, j1, j2. auto.
+Qed.
+
+Lemma current_previous_spec_l s :
+  Inv s ->
+  (len s >= 1 -> exists c j, current_job s = Some c /\ get s c = Some j) /\
+  (len s >= 2 -> exists p j, previous_job s = Some p /\ get s p = Some j /\
+                             current_job s <> Some p).
+Proof.
+  intros I. split; intros H.
+  - destruct (len_one s H) as [i [j G]].
+    destruct (cur_exists _ _ _ I G) as [C [jc Gc]]. eauto.
+  - destruct (len_two s H) as (i1 & i2 & j1 & j2 & N & G1 & G2).
+    destruct (prev_exists _ _ _ _ _ I N G1 G2) as (P & Ne & jp & Gp).
+    destruct (cur_exists _ _ _ I G1) as [C _].
+    exists (prev s), jp. split; auto. split; auto. rewrite C. congruence.
+Qed.
+
+(* ---- 6: the run-time oracle accepts every observation of an Inv state ------ *)
+
+Definition vw (p : nat * job) : nat * (Z * pstate * bool * bool) := (fst p, job_view (snd p)).
+
+Lemma o_jobs_observe pids s : o_jobs (observe pids s) = map vw (iter s).
+Proof. reflexivity. Qed.
+
+Lemma filter_head {A} (f : A -> bool) L x r : filter f L = x :: r -> In x L /\ f x = true.
+Proof.
+  intros E. apply filter_In. rewrite E. left. auto.
+Qed.
+
+Lemma filter_nil {A} (f : A -> bool) L : filter f L = [] -> forall x, In x L -> f x = false.
+Proof.
+  intros E x Hin. destruct (f x) eqn:F; auto.
+  assert (H : In x (filter f L)) by (apply filter_In; auto). rewrite E in H. destruct H.
+Qed.
+
+Lemma filter_map {A B} (f : B -> bool) (F : A -> B) L :
+  filter f (map F L) = map F (filter (fun x => f (F x)) L).
+Proof.
+  induction L as [|x L IH]; cbn; auto. destruct (f (F x)); cbn; rewrite IH; reflexivity.
+Qed.
+
+Lemma in_vw s i v : In (i, v) (map vw (iter s)) <-> exists j, get s i = Some j /\ v = job_view j.
+Proof.
+  rewrite in_map_iff. split.
+  - intros [[i0 j0] [E Hin]]. unfold vw in E. cbn in E. inversion E; subst.
+    apply in_iter in Hin. eauto.
+  - intros [j [G ->]]. exists (i, j). split; auto. apply in_iter. exact G.
+Qed.
+
+Lemma lookup_observe pids s i :
+  lookup_idx (observe pids s) i = option_map job_view (get s i).
+Proof.
+  unfold lookup_idx. rewrite o_jobs_observe.
+  destruct (filter (fun p => Nat.eqb (fst p) i) (map vw (iter s))) as [|[i0 v] r] eqn:E.
+  - destruct (get s i) as [j|] eqn:G; auto.
+    assert (Hin : In (i, job_view j) (map vw (iter s))) by (apply in_vw; eauto).
+    pose proof (filter_nil _ _ E _ Hin) as F. cbn in F. rewrite Nat.eqb_refl in F. discriminate.
+  - apply filter_head in E. destruct E as [Hin F]. cbn in F. apply Nat.eqb_eq in F. subst i0.
+    apply in_vw in Hin. destruct Hin as [j [G ->]]. rewrite G. reflexivity.
+Qed.
+
+Lemma lookup_some pids s i j :
+  get s i = Some j ->
+  match lookup_idx (observe pids s) i with Some _ => true | None => false end = true.
+Proof. intros G. rewrite lookup_observe, G. reflexivity. Qed.
+
+Lemma idx_susp_observe pids s i :
+  svL (slots s) i = Some true -> idx_susp (observe pids s) i = true.
+Proof.
+  intros H. apply svL_some_get in H. destruct H as [j [G Sj]].
+  unfold idx_susp. rewrite lookup_observe, G. cbn. exact Sj.
+Qed.
+
+Lemma nsusp_observe pids s :
+  filter (fun p => is_stopped (v_state (snd p))) (o_jobs (observe pids s)) =
+  map vw (filter (fun p => suspended (snd p)) (iter s)).
+Proof. rewrite o_jobs_observe, filter_map. reflexivity. Qed.
+
+Lemma nodup_fst_filter {A} (f : nat * A -> bool) L :
+  NoDup (map fst L) -> NoDup (map fst (filter f L)).
+Proof.
+  induction L as [|x L IH]; cbn; auto. intros ND. inversion ND as [|? ? Hn ND0]; subst.
+  destruct (f x); cbn; auto. constructor; auto.
+  intros H. apply Hn. apply in_map_iff in H. destruct H as [y [E Hy]].
+  apply filter_In in Hy. apply in_map_iff. exists y. tauto.
+Qed.
+
+Lemma nodupb_true {A} (eqb : A -> A -> bool) l :
+  (forall x y, eqb x y = true <-> x = y) -> NoDup l -> nodupb eqb l = true.
+Proof.
+  intros Heq. induction l as [|x l IH]; cbn; auto. intros ND.
+  inversion ND as [|? ? Hn ND0]; subst. rewrite IH by auto. rewrite andb_true_r.
+  apply negb_true_iff. destruct (existsb (eqb x) l) eqn:E; auto.
+  apply existsb_exists in E. destruct E as [y [Hy Exy]]. apply Heq in Exy. subst. contradiction.
+Qed.
+
+Lemma nodup_map_key {A B} (h : nat * A -> B) L :
+  NoDup (map fst L) ->
+  (forall x y, In x L -> In y L -> h x = h y -> fst x = fst y) ->
+  NoDup (map h L).
+Proof.
+  induction L as [|x L IH]; cbn; [constructor|]. intros ND Inj.
+  inversion ND as [|? ? Hn ND0]; subst. constructor.
+  - intros H. apply in_map_iff in H. destruct H as [y [E Hy]].
+    apply Hn. apply in_map_iff. exists y. split; auto.
+  - apply IH; auto.
+Qed.
+
+Lemma first_false_all l : forall k, forallb (fun b => b) l = true -> first_false k l = None.
+Proof.
+  induction l as [|b l IH]; intros k H; cbn in *; auto.
+  apply andb_true_iff in H. destruct H as [-> H]. auto.
+Qed.
+
+Definition nsusp_of (ob : obs) : nat :=
+  length (filter (fun p => is_stopped (v_state (snd p))) (o_jobs ob)).
+
+Lemma len_observe s pids (I : Inv s) : length (o_jobs (observe pids s)) = len s.
+Proof. rewrite o_jobs_observe, map_length. reflexivity. Qed.
+
+Lemma clause0 s pids (I : Inv s) :
+  (Nat.eqb (length (o_jobs (observe pids s))) 0) ||
+  match o_cur (observe pids s) with
+  | Some c => match lookup_idx (observe pids s) c with Some _ => true | None => false end
+  | None => false
+  end = true.
+Proof.
+  rewrite (len_observe s pids I). destruct (Nat.eqb_spec (len s) 0) as [E|E]; auto. cbn [orb].
+  destruct (len_one s) as [i [j G]]; [lia|].
+  destruct (cur_exists _ _ _ I G) as [C [jc Gc]].
+  cbn [o_cur observe]. rewrite C. eapply lookup_some; eauto.
+Qed.
+
+Lemma clause1 s pids (I : Inv s) :
+  (Nat.ltb (length (o_jobs (observe pids s))) 2) ||
+  match o_prev (observe pids s), o_cur (observe pids s) with
+  | Some p, Some c =>
+      negb (Nat.eqb p c) &&
+      match lookup_idx (observe pids s) p with Some _ => true | None => false end
+  | _, _ => false
+  end = true.
+Proof.
+  rewrite (len_observe s pids I). destruct (Nat.ltb_spec (len s) 2) as [E|E]; auto. cbn [orb].
+  destruct (len_two s E) as (i1 & i2 & j1 & j2 & N & G1 & G2).
+  destruct (prev_exists _ _ _ _ _ I N G1 G2) as (P & Ne & jp & Gp).
+  destruct (cur_exists _ _ _ I G1) as [C _].
+  cbn [o_cur o_prev observe]. rewrite P, C.
+  apply Nat.eqb_neq in Ne. rewrite Ne. cbn [negb andb]. eapply lookup_some; eauto.
+Qed.
+
+Lemma nsusp_eq s pids (I : Inv s) :
+  nsusp_of (observe pids s) = length (filter (fun p => suspended (snd p)) (iter s)).
+Proof. unfold nsusp_of. rewrite nsusp_observe, map_length. reflexivity. Qed.
+
+Lemma in_susp s i j :
+  In (i, j) (filter (fun p => suspended (snd p)) (iter s)) -> svL (slots s) i = Some true.
+Proof.
+  intros H. apply filter_In in H. destruct H as [Hin Sj]. apply in_iter in Hin.
+  rewrite (svL_get _ _ _ Hin). cbn in Sj. rewrite Sj. reflexivity.
+Qed.
+
+Lemma clause2 s pids (I : Inv s) :
+  (Nat.eqb (nsusp_of (observe pids s)) 0) ||
+  match o_cur (observe pids s) with
+  | Some c => idx_susp (observe pids s) c
+  | None => false
+  end = true.
+Proof.
+  rewrite (nsusp_eq s pids I).
+  destruct (Nat.eqb_spec (length (filter (fun p => suspended (snd p)) (iter s))) 0) as [E|E];
+    auto. cbn [orb].
+  destruct (one_of_list _ E) as [[i j] Hin]. pose proof (in_susp s _ _ Hin) as Si.
+  apply filter_In in Hin. destruct Hin as [Hin _]. apply in_iter in Hin.
+  destruct (cur_exists _ _ _ I Hin) as [C _].
+  cbn [o_cur observe]. rewrite C. apply idx_susp_observe.
+  apply Inv_elim in I. destruct I as (_ & _ & _ & _ & C3 & _). eapply C3; eauto.
+Qed.
+
+Lemma clause3 s pids (I : Inv s) :
+  (Nat.ltb (nsusp_of (observe pids s)) 2) ||
+  match o_prev (observe pids s) with
+  | Some p => idx_susp (observe pids s) p
+  | None => false
+  end = true.
+Proof.
+  rewrite (nsusp_eq s pids I).
+  destruct (Nat.ltb_spec (length (filter (fun p => suspended (snd p)) (iter s))) 2) as [E|E];
+    auto. cbn [orb].
+  destruct (two_of_list _ (nodup_fst_filter _ _ (nodup_iter s)) E)
+    as [[i1 j1] [[i2 j2] (H1 & H2 & N)]]. cbn in N.
+  pose proof (in_susp s _ _ H1) as S1. pose proof (in_susp s _ _ H2) as S2.
+  apply filter_In in H1. destruct H1 as [H1 _]. apply in_iter in H1.
+  apply filter_In in H2. destruct H2 as [H2 _]. apply in_iter in H2.
+  destruct (prev_exists _ _ _ _ _ I N H1 H2) as (P & _).
+  cbn [o_prev observe]. rewrite P. apply idx_susp_observe.
+  apply Inv_elim in I. destruct I as (_ & _ & _ & _ & _ & C4). eapply C4; eauto.
+Qed.
+
+Lemma clause4 s pids (I : Inv s) :
+  nodupb Z.eqb (map (fun p => v_pid (snd p)) (o_jobs (observe pids s))) &&
+  nodupb Nat.eqb (map fst (o_jobs (observe pids s))) = true.
+Proof.
+  rewrite o_jobs_observe, !map_map. apply andb_true_iff. split.
+  - apply nodupb_true; [apply Z.eqb_eq|]. apply nodup_map_key; [apply nodup_iter|].
+    intros [i1 j1] [i2 j2] H1 H2 E. cbn in *.
+    apply in_iter in H1. apply in_iter in H2.
+    eapply pid_designates_one_job_l; eauto.
+  - apply nodupb_true; [apply Nat.eqb_eq|]. cbn. apply nodup_iter.
+Qed.
+
+Lemma clause5 s pids (I : Inv s) :
+  forallb (fun q => option_eqb Nat.eqb (snd q)
+            (match filter (fun p => Z.eqb (v_pid (snd p)) (fst q)) (o_jobs (observe pids s)) with
+             | (i, _) :: _ => Some i | [] => None end)) (o_find (observe pids s)) = true.
+Proof.
+  apply forallb_forall. intros q Hq. cbn [o_find observe] in Hq.
+  apply in_map_iff in Hq. destruct Hq as [p [<- _]]. cbn [fst snd].
+  apply (option_eqb_spec Nat.eqb Nat.eqb_eq).
+  rewrite o_jobs_observe.
+  destruct (filter (fun x => Z.eqb (v_pid (snd x)) p) (map vw (iter s))) as [|[i v] r] eqn:E.
+  - destruct (find_by_pid s p) as [i|] eqn:F; auto.
+    destruct (inv_job_of_pid s I _ _ F) as [j [G Ep]].
+    assert (Hin : In (i, job_view j) (map vw (iter s))) by (apply in_vw; eauto).
+    pose proof (filter_nil _ _ E _ Hin) as X. cbn in X. rewrite Ep, Z.eqb_refl in X.
+    discriminate.
+  - apply filter_head in E. destruct E as [Hin X]. apply in_vw in Hin.
+    destruct Hin as [j [G ->]]. cbn in X. apply Z.eqb_eq in X. subst p.
+    apply (inv_pid_of_job s I). exact G.
+Qed.
+
+Lemma idnum s pids k :
+  (if contains s k then Some k else None) =
+  match lookup_idx (observe pids s) k with Some _ => Some k | None => None end.
+Proof.
+  rewrite lookup_observe. unfold contains. destruct (get s k); reflexivity.
+Qed.
+
+Lemma clause6 s pids (I : Inv s) :
+  list_eqb (option_eqb Nat.eqb) (o_ids (observe pids s))
+    ([o_cur (observe pids s); o_prev (observe pids s)] ++
+     map (fun k => match lookup_idx (observe pids s) k with Some _ => Some k | None => None end)
+         [0;1;2;3;4;5]) = true.
+Proof.
+  apply (list_eqb_spec _ (option_eqb_spec Nat.eqb Nat.eqb_eq)).
+  cbn [map app]. rewrite <- !(idnum s pids). reflexivity.
+Qed.
+
+Lemma clause7 s pids (I : Inv s) :
+  match o_prev (observe pids s), o_cur (observe pids s) with
+  | Some p, Some c => negb (Nat.eqb p c)
+  | Some _, None => false
+  | None, _ => true
+  end = true.
+Proof.
+  cbn [o_prev o_cur observe]. unfold previous_job.
+  destruct (negb (Nat.eqb (prev s) (cur s)) && contains s (prev s)) eqn:E; auto.
+  apply andb_true_iff in E. destruct E as [E1 E2].
+  unfold contains in E2. destruct (get s (prev s)) as [jp|] eqn:G; [|discriminate].
+  destruct (cur_exists _ _ _ I G) as [C _]. rewrite C. exact E1.
+Qed.
+
+Lemma inv_obs_sound_s s pids (I : Inv s) : inv_obs (observe pids s) = true.
+Proof.
+  unfold inv_obs. rewrite first_false_all; auto.
+  unfold inv_obs_clauses. cbv zeta. cbn [forallb].
+  rewrite (clause0 s pids I), (clause1 s pids I), (clause4 s pids I), (clause5 s pids I),
+    (clause6 s pids I), (clause7 s pids I).
+  fold (nsusp_of (observe pids s)). rewrite (clause2 s pids I), (clause3 s pids I).
+  reflexivity.
+Qed.
+
+Lemma inv_obs_sound_l s pids : Inv s -> inv_obs (observe pids s) = true.
+Proof. intros I. apply inv_obs_sound_s. exact I. Qed.
+
+(* ---- 8: why the precondition on insert is there ----------------------------- *)
+
+Lemma insert_live_pid_breaks_inv_l :
+  inv_obs (observe [10; 11]%Z
+             (run [OInsert 10 Running; OInsert 11 (Stopped 19); OInsert 11 (Stopped 19)]))
+  = false.
+Proof. vm_compute. reflexivity. Qed.
